@@ -882,6 +882,7 @@ func C04(e *Env) {
 	run.Sample(trimCase(geometry[0]))
 	c04ManyClients(e, root)
 	c04HugeMember(e)
+	c04ExtremeTimes(e)
 	c04CLI(e, root)
 	run.Assume("workers run under ulimit -v 8 GiB: stands in for a machine with less memory than this 62 GiB host; count-driven allocations that would exhaust such a machine show up as fatal out-of-memory crashes")
 }
@@ -1009,6 +1010,90 @@ func c04HugeMember(e *Env) {
 				run.Violate("cli-crash", "make-iso: huge-member", fmt.Sprintf("[member sizes %v] make-iso ended with exit code %d: %s", sizes, cmd.ProcessState.ExitCode(), firstLines(string(out), 3)), wit)
 			}
 			os.Remove(filepath.Join(dir, "out.iso"))
+		}
+	}
+}
+
+// c04ExtremeTimes: modification times are on-disk content too. File systems with 64-bit timestamps
+// (tmpfs, btrfs, zfs) keep years far outside the 4 digits of a volume-descriptor date and the one
+// byte (years since 1900) of a directory-record date. Trees whose root, sub-directory or member
+// carries such a time are turned into images (both modes, in-process with the panic recovered, then
+// read in full) and given to make-iso.
+func c04ExtremeTimes(e *Env) {
+	run := e.Run
+	secs := []int64{253402300800 /* year 10000 */, 910692730085 /* year 30828 */, -93727756800 /* year -1000 */, -62198755200 /* year -1 */, 1<<33 - 1, 1<<62 - 1, -1 << 62, -2208988801 /* 1899 */, 5680281600 /* 2150 */, 8210266876 /* 2230: years since 1900 > 255 */, 0, -1}
+	var dir string
+	for _, base := range []string{"/dev/shm", e.Scratch} {
+		d, err := os.MkdirTemp(base, "verif-c04-times-")
+		if err != nil {
+			continue
+		}
+		defer os.RemoveAll(d)
+		probe := filepath.Join(d, "probe")
+		os.WriteFile(probe, nil, 0o644)
+		// not os.Chtimes: it converts through nanoseconds since 1970, which overflow after year 2262
+		if syscall.UtimesNano(probe, []syscall.Timespec{{Sec: secs[0]}, {Sec: secs[0]}}) == nil {
+			if fi, err := os.Stat(probe); err == nil && fi.ModTime().Unix() == secs[0] {
+				dir = d
+				break
+			}
+		}
+	}
+	if dir == "" {
+		run.Count("extreme_times_not_storable_here", 1)
+		return
+	}
+	for si, sec := range secs {
+		for _, where := range []string{"member", "subdir", "root", "sfo"} {
+			tree := filepath.Join(dir, fmt.Sprintf("t%d-%s", si, where))
+			must(os.MkdirAll(filepath.Join(tree, "PS3_GAME", "USRDIR"), 0o755))
+			must(os.WriteFile(filepath.Join(tree, "PS3_GAME", "USRDIR", "EBOOT.BIN"), bytes.Repeat([]byte{0x5a}, 3000), 0o644))
+			must(os.WriteFile(filepath.Join(tree, "PS3_GAME", "PARAM.SFO"), makeSFO(map[string]string{"TITLE_ID": "BLES12345", "TITLE": "t"}, []string{"TITLE", "TITLE_ID"}), 0o644))
+			must(os.WriteFile(filepath.Join(tree, "readme.txt"), []byte("x"), 0o644))
+			target := map[string]string{"member": filepath.Join(tree, "readme.txt"), "subdir": filepath.Join(tree, "PS3_GAME", "USRDIR"), "root": tree, "sfo": filepath.Join(tree, "PS3_GAME", "PARAM.SFO")}[where]
+			tm := time.Unix(sec, 0)
+			if err := syscall.UtimesNano(target, []syscall.Timespec{{Sec: sec}, {Sec: sec}}); err != nil {
+				run.Count("extreme_time_refused_by_fs", 1)
+				continue
+			}
+			if fi, err := os.Lstat(target); err != nil || fi.ModTime().Unix() != sec {
+				run.Count("extreme_time_not_kept_by_fs", 1)
+				continue
+			}
+			wit := map[string]any{"mtime_unix": sec, "mtime": tm.UTC().Format("2006-01-02T15:04:05Z"), "carried_by": where, "tree": tree}
+			for _, ps3 := range []bool{false, true} {
+				run.Eval(1)
+				feat := fmt.Sprintf("mtime of %s, ps3=%v", where, ps3)
+				v, _, err, perr := libOpenImage(dir, "/"+filepath.Base(tree), ps3, 0)
+				switch {
+				case perr != nil:
+					run.Violate("panic", "extreme-mtime: "+feat, fmt.Sprintf("[mtime %s (unix %d) on the %s] creating the image (as OPEN/STAT of the virtual path does) panicked: %v", wit["mtime"], sec, where, perr), wit)
+					continue
+				case err != nil:
+					run.Sig("extreme mtime %d %s ps3=%v refused", si, where, ps3)
+					continue
+				}
+				st, _ := v.Stat()
+				_, rerr, rperr := readAllSeq(v, 65536, st.Size())
+				v.Close()
+				if rperr != nil {
+					run.Violate("panic", "extreme-mtime read: "+feat, fmt.Sprintf("[mtime %s (unix %d) on the %s] reading the image panicked: %v", wit["mtime"], sec, where, rperr), wit)
+					continue
+				}
+				_ = rerr
+				run.Sig("extreme mtime %d %s ps3=%v served", si, where, ps3)
+			}
+			if e.Bin != "" && (e.Thorough || where != "sfo") {
+				run.Eval(1)
+				outp := filepath.Join(dir, "out.iso")
+				cmd := exec.Command(e.Bin, "make-iso", tree, outp)
+				out, _ := cmd.CombinedOutput()
+				if code := cmd.ProcessState.ExitCode(); code != 0 && code != 1 || bytes.Contains(out, []byte("fatal error:")) || bytes.Contains(out, []byte("panic:")) {
+					run.Violate("cli-crash", "make-iso: extreme-mtime of "+where, fmt.Sprintf("[mtime %s (unix %d) on the %s] make-iso ended with exit code %d: %s", wit["mtime"], sec, where, cmd.ProcessState.ExitCode(), firstLines(string(out), 3)), wit)
+				}
+				os.Remove(outp)
+			}
+			os.RemoveAll(tree)
 		}
 	}
 }
